@@ -26,6 +26,29 @@ func c05Gen(rng *rand.Rand, m *model.Model, keys []string) []string {
 		return pick(rng, sets)
 	}
 	n := modelLen(m, 0, k)
+	if rng.Intn(40) == 0 {
+		// wide commands: 65-200 members / operands in one command
+		w := 65 + rng.Intn(136)
+		switch rng.Intn(3) {
+		case 0:
+			a := []string{pick(rng, []string{"SADD", "SREM", "SMISMEMBER"}), k}
+			for i := 0; i < w; i++ {
+				a = append(a, "wm"+strconv.Itoa(i))
+			}
+			return a
+		case 1:
+			a := []string{pick(rng, []string{"SUNION", "SINTER", "SDIFF"})}
+			for i := 0; i < w; i++ {
+				a = append(a, pick(rng, sets))
+			}
+			return a
+		}
+		a := []string{pick(rng, []string{"SUNIONSTORE", "SDIFFSTORE"}), pick(rng, sets)}
+		for i := 0; i < w; i++ {
+			a = append(a, pick(rng, sets))
+		}
+		return a
+	}
 	switch rng.Intn(30) {
 	case 0, 1, 2, 3:
 		a := []string{"SADD", k}
